@@ -60,6 +60,7 @@ type Contract struct {
 	Loops       map[int]*LoopContract
 	GhostSets   []*GhostSet
 	AtCalls     []*AtCall
+	MissingSites []string // `at call f#N` clauses whose call site no longer exists: reported as failed obligations
 	NoPanic     bool
 	Pure        bool
 	Inline      bool
@@ -914,8 +915,9 @@ func (w *World) finishAtCalls() error {
 				sort.Slice(sites, func(i, j int) bool { return sites[i] < sites[j] })
 				if ac.Site > 0 {
 					if ac.Site > len(sites) {
-						c.Stale = fmt.Sprintf("%s: contract stale: no call site #%d of %s (found %d)", ac.Expr.Line, ac.Site, ac.Callee, len(sites))
-						w.stale = append(w.stale, c.Stale)
+						// the contract demands an N-th call of the callee: its absence is a failed obligation of the
+						// function (the code changed shape), not a broken check
+						c.MissingSites = append(c.MissingSites, fmt.Sprintf("call.%s#%d.exists|the contract constrains call site #%d of %s (%s) but the function has only %d such call(s)", ac.Callee, ac.Site, ac.Site, ac.Callee, ac.Expr.Text, len(sites)))
 						continue
 					}
 					ac.SitePos = sites[ac.Site-1]
